@@ -164,7 +164,9 @@ class ProtoImporter:
                 # Import a VLSIR primitive to an ideal element, and convert its parameters
                 target = import_vlsir_primitive(ref.external)
                 remapped_params = import_primitive_params(target, params)
-                params = target.Params(**unset_params(target, remapped_params))
+                params = target.Params(
+                    **literal_params(target, unset_params(target, remapped_params))
+                )
 
             elif ref.external.domain in (
                 "hdl21.primitives",
@@ -172,7 +174,9 @@ class ProtoImporter:
             ):
                 # Retrieve the Primitive from `hdl21.primitives`, and convert its parameters
                 target = import_hdl21_primitive(ref.external)
-                params = target.Params(**unset_params(target, params))
+                params = target.Params(
+                    **literal_params(target, unset_params(target, params))
+                )
 
             else:  # Externally-defined `ExternalModule`
                 # These must be declared in our `Package` being imported. Look up its header-info from `ext_modules`.
@@ -394,6 +398,20 @@ def unset_params(target: Primitive, params: Dict[str, Any]) -> Dict[str, Any]:
     for name, param in target.Params.__params__.items():
         if name not in rv and type(None) in getattr(param.dtype, "__args__", ()):
             rv[name] = None
+    return rv
+
+
+def literal_params(target: Primitive, params: Dict[str, Any]) -> Dict[str, Any]:
+    """String-valued entries of `Scalar`-typed parameters were exported from `Literal`s.
+    Keep them `Literal`s, rather than having `Scalar` validation re-parse numeric-looking text into numbers."""
+    from ..scalar import Scalar
+
+    rv = dict(params)
+    for name, val in params.items():
+        param = target.Params.__params__.get(name, None)
+        if isinstance(val, str) and param is not None:
+            if param.dtype == Scalar or Scalar in getattr(param.dtype, "__args__", ()):
+                rv[name] = Literal(text=val)
     return rv
 
 
